@@ -12,7 +12,7 @@
     parent is inferred: any model thread - in the state before the operation, after its prctl, or after it -
     with the same observable status); a task that disappeared has exited. *)
 From Coq Require Import List NArith Bool.
-From Seccomp Require Import Machine Raw Result KernelCheck KernelState Skeleton Loader.
+From Seccomp Require Import Words Machine Raw Result KernelCheck KernelState Skeleton Loader.
 Import ListNotations.
 Close Scope string_scope.
 Open Scope list_scope.
@@ -112,8 +112,24 @@ Fixpoint insert_sorted (x:N) (l:list N) : list N :=
   match l with [] => [x] | y :: r => if x <=? y then x :: l else y :: insert_sorted x r end.
 Definition sort_n (l:list N) : list N := fold_right insert_sorted [] l.
 
-Fixpoint lookup_fid (m:list (N * N)) (fid:N) : N :=
-  match m with [] => 999999 | (f, i) :: r => if f =? fid then i else lookup_fid r fid end.
+(** the load indices of the filters of a stack that ANSWER their probe (a filter that does not - a policy without
+    names, one whose actions are all allow, one that only intercepts seccomp(2) - is in the stack and counts in
+    Seccomp_filters, but no probe shows it) *)
+Fixpoint lookup_fid (m:list (N * N)) (fid:N) : list N :=
+  match m with [] => [] | (f, i) :: r => if f =? fid then [i] else lookup_fid r fid end.
+
+Fixpoint dedup_sorted (l:list N) : list N :=
+  match l with
+  | x :: ((y :: _) as r) => if x =? y then dedup_sorted r else x :: dedup_sorted r
+  | _ => l
+  end.
+
+(** the probe of load index [idx]: getppid (110 on x86_64) with 1000 + idx in the first argument register; the filter
+    loaded as [idx] answers it with EPERM. Whether an installed program does is decided by RUNNING it on that record. *)
+Definition probe_event (idx:N) : event :=
+  {| ev_nr := 110; ev_arch := AUDIT_ARCH_X86_64; ev_ip := 0; ev_args := [1000 + idx; 0; 0; 0; 0; 0] |}.
+Definition answers_probe (p:list sock_filter) (idx:N) : bool :=
+  match verdict_of (filter_ret p (probe_event idx)) with VRefuse e => e =? 1 | _ => false end.
 
 Fixpoint first_diff (a b:list N) (pos:N) : option N :=
   match a, b with
@@ -132,7 +148,7 @@ Definition cmp_thread (step:N) (fids:list (N * N)) (st:kstate) (o:obs_thread) : 
     match o_active o with
     | None => []
     | Some act =>
-      let m := sort_n (map (lookup_fid fids) (t_filters t)) in
+      let m := dedup_sorted (sort_n (flat_map (lookup_fid fids) (t_filters t))) in
       match first_diff m act 0 with
       | None => []
       | Some pos => [(step, o_tid o, 10, N.of_nat (length m), N.of_nat (length act) + 1000 * (pos + 1))]
@@ -150,7 +166,9 @@ Definition replay_step (s:rstate) (x:rstep) : rstate :=
     | RLoad idx tid pinned sched f isnil calls =>
         let '(w', r) := load (mkw st tid pinned sched) f in
         let st' := w_k w' in
-        let fids' := if ks_next_fid st' =? ks_next_fid st then rs_fids s else (ks_next_fid st, idx) :: rs_fids s in
+        let fids' := if ks_next_fid st' =? ks_next_fid st then rs_fids s
+                     else if answers_probe (prog_of (ks_progs st') (ks_next_fid st)) idx then (ks_next_fid st, idx) :: rs_fids s
+                     else rs_fids s in
         (st', fids',
          match r with
          | LStuck => [(step, 0, 13, 0, 0)]
